@@ -327,10 +327,14 @@ SPEC = {
          'timeout': {'quick': 300, 'thorough': 300},
          'fidelity': [dict(mode=0, tdk=0), dict(mode=1, tdk=1)]},
         {'name': 'order4', 'fn': 'order', 'params': p4, 'call': c4,
-         'bounds': {'thorough': b4 + ' and not j and not m0 and not dup and unit == 0 and not inst and (own == 15 or own == 7 or own == 14)'},
-         'slices': {'thorough': ['p == %d' % i for i in range(24)]},
-         'reach': 'order_reach', 'reach_bounds': {'thorough': b4 + ' and p == 0 and q == 1 and not inst and not j and unit == 0 and own == 15'},
-         'timeout': {'thorough': 1500},
-         'fidelity': [_v(4, e0=True, e1=True, e5=True, q=7, p=9)]},
+         # quick: every 4-layer graph x every discovery order for one naming, owners = all but the shared middle layer (the owner
+         # set for which a key computed from a cached prefix differs), class and instance layers
+         'bounds': {'quick': b4 + ' and not j and not m0 and not dup and unit == 0 and p == 0 and own == 13',
+                    'thorough': b4 + ' and not j and not m0 and not dup and unit == 0 and ((not inst and (own == 15 or own == 7 or own == 14)) or (p % 6 == 0 and (own == 13 or own == 11)))'},
+         'slices': {'quick': ['q %% 8 == %d' % i for i in range(8)], 'thorough': ['p == %d' % i for i in range(24)]},
+         'reach': 'order_reach', 'reach_bounds': {'quick': b4 + ' and p == 0 and q == 1 and not inst and not j and unit == 0 and own == 13 and not m0 and not dup',
+                                                  'thorough': b4 + ' and p == 0 and q == 1 and not inst and not j and unit == 0 and own == 15'},
+         'timeout': {'quick': 300, 'thorough': 1500},
+         'fidelity': [_v(4, e0=True, e1=True, e5=True, q=7, p=9), _v(4, e0=True, e2=True, e3=True, e4=True, q=9, p=0, own=13, inst=True)]},
     ],
 }
